@@ -606,6 +606,18 @@ func ModelRestore(src string, i int, dst string) {
 	d.gen = symFileGen(dst)
 }
 
+// ModelRename follows os.Rename: the content (and the lock, which belongs to the file, not to
+// the name) moves to the new path; whatever the new path held is gone.
+func ModelRename(from, to string) {
+	fs := files[from]
+	delete(files, from)
+	delete(files, to)
+	if fs != nil {
+		files[to] = fs
+		fs.gen = symFileGen(to)
+	}
+}
+
 // ModelFlockHeld reports whether some handle holds the file lock of path.
 func ModelFlockHeld(path string) bool {
 	fs := files[path]
